@@ -273,6 +273,10 @@ def via_loaders(doc, how):
 
 
 def check_cases(chk, cases, replay=False):
+    import ast
+    for c in cases:            # replay of a document whose keys JSON cannot carry: rebuilt from its Python literal
+        if isinstance(c.get("python_doc"), str):
+            c["doc"] = ast.literal_eval(c["python_doc"])
     # ---- (1) schema agreement
     docs = [c["doc"] for c in cases]
     lines = []
@@ -286,9 +290,15 @@ def check_cases(chk, cases, replay=False):
     mv = iter([lib.dec(x) for x in lib.run_model(RUNNER, lines)])
     valid_cases = []
     ivs = par(_valid_shard, [c["doc"] for c in cases])
+    unenc = []
     for c, ok, iv in zip(cases, enc_ok, ivs):
         chk.count("fam:" + c["fam"])
         if not ok:
+            # a document the model's value type cannot hold (mapping keys that are not strings, as YAML produces):
+            # no model comparison, but the property still speaks about it when the bundled schema accepts it
+            chk.count("valid_unencodable:%s" % iv)
+            if iv is True:
+                unenc.append(c)
             continue
         m = next(mv)
         chk.count("valid:%s" % iv)
@@ -303,6 +313,25 @@ def check_cases(chk, cases, replay=False):
             valid_cases.append(c)
         else:
             chk.mark(("schema-invalid", repr(c["doc"])), False)
+    # ---- (2') totality alone for accepted documents outside the model's value type
+    uitems, umeta = [], []
+    for c in unenc:
+        for req in c["reqs"]:
+            for strict in (False, True):
+                uitems.append((c["doc"], req, strict, False))
+                umeta.append((c, req, strict))
+    for (c, req, strict), d in zip(umeta, par(_eval_shard, uitems)):
+        chk.mark(("unenc", repr(c["doc"]), repr(req), strict), True)
+        case = {"fam": c["fam"], "doc": lib.jsonable(repr(c["doc"])), "reqs": [req], "strict": strict, "python_doc": repr(c["doc"])}
+        if isinstance(d, list):
+            chk.count("impl:raise")
+            chk.violation("evaluation of a schema-valid policy (mapping keys that are not strings, as YAML yields them) raised %s" % d[1],
+                          case, impl=d, model=None)
+        elif not isinstance(d["allowed"], bool) or d["effect"] not in ("permit", "deny") or d["reason"] not in REASONS \
+                or (d["allowed"] != (d["effect"] == "permit")):
+            chk.violation("ill-formed decision for a schema-valid policy", case, impl=d, model=None)
+        else:
+            chk.count("impl_unencodable:%s/%s" % (d["effect"], d["reason"]))
     # ---- (2) totality, (3) correspondence
     items, meta = [], []
     for c in valid_cases:
@@ -342,7 +371,13 @@ def check_cases(chk, cases, replay=False):
             chk.corr_break("the model raises where the implementation returns", case, impl=d, model=m, theorems=["c06_total"])
             continue
         if d != m:
-            chk.corr_break("Decision differs from the model on a schema-valid policy", case, impl=d, model=m, theorems=["c06_total", "C01"])
+            if isinstance(m, dict) and m.get("reason") == "condition_type_mismatch" and d.get("reason") in ("matched", "explicit_deny", "obligation_failed"):
+                # the model's verdict rests on C04's theorems: the only rules that could apply have an ill-typed operand
+                chk.violation("an ill-typed operand did not make the affected rule not apply: a rule with a type mismatch in its "
+                              "condition decided the request (documented meaning of the condition: type mismatch, props/C04.v)",
+                              case, impl=d, model=m)
+            else:
+                chk.corr_break("Decision differs from the model on a schema-valid policy", case, impl=d, model=m, theorems=["c06_total", "C01"])
 
 
 def gen_cases(chk):
@@ -377,6 +412,39 @@ def gen_cases(chk):
             req = {"subject": {"id": "u", "roles": [], "attrs": {}}, "action": "read",
                    "resource": {"type": "doc", "id": "1", "attrs": {}}, "context": {"a": gen.fresh(v), "b": gen.fresh(rng.choice(HOSTILE))}}
             cases.append({"fam": "hostile", "doc": doc, "reqs": [req]})
+    # logic: every and/or over pairs of {true, false, ill-typed, holds, fails} leaves, bare, negated, and nested once
+    ILL = {"<": [{"attr": "context.a"}, 3]}
+    leaves = [True, False, ILL, {"==": [1, 1]}, {"==": [1, 2]}, {">": [{"attr": "context.missing"}, 3]}]
+    trees = []
+    for op in ("and", "or"):
+        for x in leaves:
+            for y in leaves:
+                t = {op: [x, y]}
+                trees += [t, {"not": t}, {"or" if op == "and" else "and": [t, False]}, {"not": {"and": [t, True]}}]
+    for t in trees + [{"not": l} for l in leaves]:
+        doc = {"algorithm": "first-applicable", "rules": [
+            {"id": "h", "effect": "permit", "actions": ["read"], "resource": {"type": "doc"}, "condition": t},
+            {"id": "fallback", "effect": "deny", "actions": ["*"], "resource": {"type": "*"}}]}
+        req = {"subject": {"id": "u", "roles": [], "attrs": {}}, "action": "read",
+               "resource": {"type": "doc", "id": "1", "attrs": {}}, "context": {"a": "high"}}
+        cases.append({"fam": "logic", "doc": doc, "reqs": [req]})
+    # documents as YAML yields them: mapping keys that are not strings (2024: archived, no: true, 1.5: x, null: y)
+    for keyset in ({2024: "archived"}, {False: True}, {1.5: "x"}, {None: "y"}, {2024: "archived", "k": 1}, {(1, 2): "t"}):
+        for where in ("attrs", "obligation", "obligation_attrs", "rule_extra"):
+            rule = {"id": "y", "effect": "permit", "actions": ["read"], "resource": {"type": "doc"}}
+            if where == "attrs":
+                rule["resource"]["attrs"] = dict(keyset)
+            elif where == "obligation":
+                rule["obligations"] = [dict(keyset, type="require_mfa")]
+            elif where == "obligation_attrs":
+                rule["obligations"] = [{"type": "require_level", "attrs": dict(keyset, min=1)}]
+            else:
+                rule.update(keyset)
+            doc = {"algorithm": "deny-overrides", "rules": [rule, {"id": "z", "effect": "deny", "actions": ["write"], "resource": {"type": "*"}}]}
+            for rattrs in ({}, {"k": 1}, {"2024": "archived"}):
+                req = {"subject": {"id": "u", "roles": [], "attrs": {}}, "action": "read",
+                       "resource": {"type": "doc", "id": "1", "attrs": rattrs}, "context": {"mfa": True}}
+                cases.append({"fam": "yamlkeys", "doc": doc, "reqs": [req]})
     # rel conditions: every ctx shape of the rule against every shape of the request's context._rebac (an object
     # whose values are any JSON value, the two sharing keys), with and without a relationship checker
     shapes = [None, {}, {"z": 1}, {"z": None}, {"z": "s"}, {"z": [1]}, {"z": {"max": 5}}, {"z": {"max": {"deep": 1}}},
